@@ -207,6 +207,15 @@ def build(ev, ref, t_us, server_side=False, conn=None, queue=None, decor=None):
         exp['orphan'] = True
         args = [['int', 1]]
         exp['args'] = [('int', None)]
+    elif k == 'reject':
+        # wl_display.delete_id for an id created before the log began: a message the tool cannot take in - it reports the
+        # line as unprocessed and records nothing (the connection the line belongs to is opened all the same)
+        sent, iface, oid, name = False, 'wl_display', 1, 'delete_id'
+        exp['target'] = ref.label(1)
+        exp['rejected'] = True
+        args = [['int', 88]]
+        exp['args'] = [('int', None)]
+        ref.nmsg -= 1
     elif k == 'foreign':
         _, i = ev
         sent, iface, oid, name = True, 'zz_f', FACTORY_ID, 'delete_id'
